@@ -70,6 +70,10 @@ func ValidateTOTP(secret, code string, t time.Time, param *Param) (bool, error) 
 		period = 30
 	}
 
+	if param.Skew > 10 {
+		return false, ErrInvalidSkew
+	}
+
 	skew := param.Skew
 	counter := TimeCounterFunc(t, period)
 
